@@ -51,6 +51,7 @@ type Sim struct {
 
 	Strategy   int
 	PreemptDen int
+	SyncBias   bool
 	pctChange  []int
 	pctLow     int
 
@@ -107,6 +108,7 @@ func NewSim(t *Tape, maxSteps int) *Sim {
 	case 5:
 		s.Strategy, s.PreemptDen = StratPreempt, 12
 	}
+	s.SyncBias = t.Draw(Knobs, 2) == 1
 	return s
 }
 
@@ -341,7 +343,15 @@ func Yield(site int32) {
 			s.switchTo(me, nx)
 		}
 	default:
-		if s.T.Draw(Sched, s.PreemptDen) == s.PreemptDen-1 { // 0 = continue (replay past the end, shrinker)
+		den := s.PreemptDen
+		if site < 0 && site > -100 && s.SyncBias {
+			// synchronisation points (lock / unlock / pool get / put): in half of the runs a
+			// context switch lands there far more often than elsewhere - the windows between
+			// "released the read lock" and "took the write lock", between Put and Get, are
+			// where check-then-act slips live
+			den = 3
+		}
+		if s.T.Draw(Sched, den) == den-1 { // 0 = continue (replay past the end, shrinker)
 			nx := s.pick(me.id)
 			if nx >= 0 {
 				s.switchTo(me, nx)
